@@ -216,6 +216,24 @@ def gen_instance(rng, iid, family='random', nmax_geos=6):
       for d in range(n_dates):
         if (g, d) in cells:
           cells[(g, d)] += off
+  if n >= 2 and family in ('random', 'constraints', 'degenerate') and iid % 9 in (4, 7):
+    # responses need not be positive: the smallest geo records net outflows (every value negated; any group with
+    # another geo still has a positive total) or nets out to exactly zero (+a, -a, +b, -b, ...: share zero)
+    tot = {g: sum(v for (gg, _), v in cells.items() if gg == g) for g in range(1, n + 1)}
+    g0 = min(tot, key=lambda g: (tot[g], g))
+    others = [tot[g] for g in tot if g != g0]
+    if min(others) > 0 and tot[g0] < 0.9 * min(others):
+      days = sorted(d for (gg, d) in cells if gg == g0)
+      if iid % 9 == 4:
+        for d in days:
+          cells[(g0, d)] = -cells[(g0, d)]
+      elif len(days) >= 4:
+        amp = random.Random(iid * 31 + 7)
+        for j in range(0, len(days) - 1, 2):
+          a = amp.randint(3, 60)
+          cells[(g0, days[j])], cells[(g0, days[j + 1])] = a, -a
+        if len(days) % 2:
+          cells[(g0, days[-1])] = 0
   inst = {'id': iid, 'family': family, 'n': n, 'n_dates': n_dates, 'cells': cells, 'elig': elig,
           'default_elig': default_elig, 'par': p, 'tr': tr, 'cr': cr, 'gtol': gtol, 'vtol': vtol, 'share': share,
           'nmax': nmax, 'want_budget': want_budget, 'budget': None,
